@@ -17,7 +17,7 @@ git -C $WT apply $SEED/patch.diff || { echo "[$NAME] PATCH DOES NOT APPLY"; cd /
 PYTHONPATH=$WT/src /venv/bin/python -m pytest -q -p no:cacheprovider --timeout=900 $TESTS 2>&1 | tail -1 > $OUT/tests
 PYTHONPATH=$WT/src /venv/bin/python $SEED/demo.py >$OUT/demo1 2>&1; D1=$?
 echo "[$NAME] demo clean exit=$D0, demo mutant exit=$D1, tests: $(cat $OUT/tests)"
-cd /verif
+cd ${VERIF_DIR:-/verif}
 for c in "$@"; do
   T0=$(date +%s)
   PYTHONPATH=$WT/src RP2_REPO=$WT VERIF_EVIDENCE_DIR=$OUT/evidence VERIF_REPLAY_DIR=$OUT/replays ./check $c --tier quick --budget $BUDGET > $OUT/$c.out 2>&1; RC=$?
